@@ -262,7 +262,8 @@ class EString(Expression):
         """
         Generate the HiFiber code for an EString
         """
-        return "\"" + self.string + "\""
+        escaped = self.string.replace("\\", "\\\\").replace("\"", "\\\"")
+        return "\"" + escaped + "\""
 
 
 class ETuple(Expression):
